@@ -11,9 +11,9 @@
 #include <sys/stat.h>
 #include <unistd.h>
 
-enum { CL_ARGV_OK, CL_ENV_OK, CL_CWD_OK, CL_PROG_OK, CL_EMPTY_ARG, CL_NONUTF8, CL_EXTEND, CL_EMPTY_ENV, CL_DEEP_CLEAN_FAIL, CL_DEEP_OK, CL_LONG_ARG, CL_PATH_SEARCH };
+enum { CL_ARGV_OK, CL_ENV_OK, CL_CWD_OK, CL_PROG_OK, CL_EMPTY_ARG, CL_NONUTF8, CL_EXTEND, CL_EMPTY_ENV, CL_DEEP_CLEAN_FAIL, CL_DEEP_OK, CL_LONG_ARG, CL_PATH_SEARCH, CL_RESOLVE_FAULT_CLEAN };
 static const char *const c03_clauses[] = { "argv-exact", "env-exact", "cwd-exact", "program-resolved-against-parent-cwd", "empty-string-argument", "non-utf8-bytes",
-                                           "env-extend", "env-empty", "beyond-path-max-clean-failure", "deep-cwd-within-limit-works", "long-argument", "path-search", NULL };
+                                           "env-extend", "env-empty", "beyond-path-max-clean-failure", "deep-cwd-within-limit-works", "long-argument", "path-search", "resolution-failure-is-a-clean-error", NULL };
 
 static char key[200];
 
@@ -187,6 +187,21 @@ static void path_cfg(long cfg)
   unlink("x/vc");
   if (link(vk_helper_path, "x/vc") < 0) vk_finish(OUT_INFRA, "link: %s", strerror(errno));
   /* a decoy with the same relative name under every working directory: resolving against the child's directory would hit it */
+  {
+    static const char *const dd[] = { "sub/progs", "dir with spaces/progs" };
+    for (int i = 0; i < 2; i++) {
+      char f[64];
+      mkdir(dd[i], 0755);
+      snprintf(f, sizeof f, "%s/vc", dd[i]);
+      int d = open(f, O_WRONLY | O_CREAT | O_TRUNC, 0755);
+      if (d < 0 || write(d, "#!/bin/sh\nexit 0\n", 18) != 18) vk_finish(OUT_INFRA, "decoy: %s", strerror(errno));
+      close(d);
+    }
+  }
+  /* resolving a relative program needs the parent's directory: getcwd() and the allocations around it may fail (one fault per execution) */
+  vk_cfg.faults_on = 1;
+  vk_cfg.fault_bound = 1;
+  vk_cfg.fault_calls = (1ull << C_GETCWD) | (1ull << C_CALLOC) | (1ull << C_REALLOC) | (1ull << C_MALLOC);
   const char *wds[] = { NULL, "sub", "dir with spaces", NULL };
   char abswd[400];
   snprintf(abswd, sizeof abswd, "%s/sub", hx_workdir);
@@ -227,9 +242,16 @@ static void path_cfg(long cfg)
   }
   vk_script("");
   reproc_t *p = hx_new();
+  vk_faults_armed = 1;
   int r = hx_start(p, argv, o);
+  vk_faults_armed = 0;
   char now[512];
   if (!getcwd(now, sizeof now) || strcmp(now, cwd_parent)) vk_violation("C12", "parent-cwd-untouched", key, "the caller's working directory changed to %s", now);
+  if (r < 0) {
+    /* a failed call behind it: a clean failure is all that is asked */
+    for (int i = 0; i < S->nevents; i++)
+      if (S->ev[i].api == hx_last_api && S->ev[i].injected > 0 && r == -S->ev[i].injected) { vk_hit(CL_RESOLVE_FAULT_CLEAN); hx_destroy(p); return; }
+  }
   if (r < 0) { vk_violation("C03", "program-resolution", key, "start returned %s for program \"%s\" (working_directory %s)", hx_errname(r), argv[0], wdir ? wdir : "unset"); hx_destroy(p); return; }
   struct vk_child *c = &vk_children[0];
   if (!c->have_hello) {
